@@ -109,6 +109,26 @@ func zzScopeProgram(sv *zzsv.T, k int, clash string, arr *zzExpr) *zzProg {
 		return &zzProg{funcs: []*zzFunc{
 			{name: "set", params: []string{"p"}, body: []*zzStmt{stSet("x", xBin("+", xVar("p"), xLit(9))), stRet(xLit(0))}}},
 			main: []*zzStmt{stEach("", "x", arr, stSet("r", xVar("x"))), stSet("q", xCall("set", N)), stT(xVar("a")), stRet(xVar("x"))}}
+	case 18: // a callee reads the caller's local, then declares its own local of that name
+		return &zzProg{funcs: []*zzFunc{
+			{name: "inner", params: []string{"p"}, body: []*zzStmt{stSet("seen", xVar(clash)), stLocal(clash), stSet(clash, xBin("+", xVar("p"), xLit(9))), stRet(xVar(clash))}},
+			{name: "outer", params: []string{"p"}, body: []*zzStmt{stLocal(clash), stSet(clash, xVar("p")), stSet("q", xCall("inner", xVar("p"))), stRet(xVar(clash))}}},
+			main: []*zzStmt{stSet("r", xCall("outer", N)), stT(xVar("seen")), stT(xVar("q")), stT(xVar("a")), stT(xVar("b")), stRet(xVar("r"))}}
+	case 19: // a loop body reads the function's local, then declares a local of that name for the loop
+		return &zzProg{funcs: []*zzFunc{{name: "f", params: []string{"p"}, body: []*zzStmt{
+			stLocal(clash), stSet(clash, xVar("p")),
+			stEach("", "v", arr, stT(xVar(clash)), stLocal(clash), stSet(clash, xVar("v")), stT(xVar(clash))),
+			stRet(xVar(clash))}}},
+			main: []*zzStmt{stSet("r", xCall("f", N)), stT(xVar("a")), stT(xVar("b")), stRet(xVar("r"))}}
+	case 20: // a parameter is read in a loop body before a local of that name is declared there
+		return &zzProg{funcs: []*zzFunc{{name: "f", params: []string{clash}, body: []*zzStmt{
+			stEach("", "v", arr, stSet("g", xVar(clash)), stLocal(clash), stSet(clash, xBin("+", xVar("v"), xLit(1))), stSet("g", xBin("+", xVar("g"), xVar(clash)))),
+			stRet(xVar(clash))}}},
+			main: []*zzStmt{stSet("r", xCall("f", N)), stT(xVar("g")), stT(xVar("a")), stT(xVar("b")), stRet(xVar("r"))}}
+	case 21: // a callee reads the variable of the caller's running loop, then declares a local of that name
+		return &zzProg{funcs: []*zzFunc{{name: "h", params: []string{"p"}, body: []*zzStmt{
+			stSet("seen", xVar("x")), stLocal("x"), stSet("x", xBin("+", xVar("p"), xLit(5))), stRet(xVar("x"))}}},
+			main: []*zzStmt{stEach("", "x", arr, stSet("r", xCall("h", N)), stT(xVar("x")), stT(xVar("seen"))), stT(xVar("a")), stRet(xVar("r"))}}
 	default: // a function without return used as a statement: nothing comes back
 		return &zzProg{funcs: []*zzFunc{{name: "f", params: []string{"p"}, body: []*zzStmt{stSet("g", xVar("p"))}}},
 			main: []*zzStmt{stCall("f", N), stCall("f", xBin("+", N, xLit(1))), stRet(xVar("g"))}}
@@ -119,7 +139,7 @@ func zzScopeProgram(sv *zzsv.T, k int, clash string, arr *zzExpr) *zzProg {
 // variables of the same names have their old values, the callee's are gone,
 // other assignments are global.
 func ZZ_C06_Scopes(sv *zzsv.T) {
-	k := sv.Choice("scenario", 19)
+	k := sv.Choice("scenario", 23)
 	clash := []string{"a", "b"}[sv.Choice("clash", 2)]
 	vars := map[string]zv{"a": zInt(sv.Int64("a")), "b": zInt(sv.Int64("b"))}
 	order := []string{"a", "b"}
@@ -150,7 +170,7 @@ func ZZ_C06_Scopes(sv *zzsv.T) {
 	out, rerr := e.Execute(nil)
 	ref, want := zzRunRef(sv, p, vars, nil)
 	zzDescribe(sv, "result", out, rerr)
-	zzCompareRun(sv, "C06", e, out, rerr, trace, ref, want, []string{"a", "b", "g", "r", "x", "y", "i", "p", "q"})
+	zzCompareRun(sv, "C06", e, out, rerr, trace, ref, want, []string{"a", "b", "g", "r", "x", "y", "i", "p", "q", "seen"})
 }
 
 // ZZ_C06_Errors: wrong argument count and unknown functions are run-time
